@@ -105,7 +105,7 @@ def run(c, facts, tier):
     glue.obligations(c, facts, b, "C18")
     tokfn = an.role("token")
     scope = b.scope(facts.fn(tokfn).module)
-    c.trusted = ["winnow 0.6.7: .context() pushes on the error while it propagates outward; cut_err stops alternation; and_then restores the position to the start of the word on inner failure", "E1 extractor"]
+    c.trusted = ["winnow 0.6.7: .context() pushes on the error while it propagates outward and ContextError::context() iterates in push order (innermost first); cut_err stops alternation; and_then restores the position to the start of the word on inner failure", "E1 extractor"]
     c.explanation = (
         "Reachability of the keyword and of the offending word to the message, decided structurally: every argument-taking alternative carries a label equal to its keyword directly inside its category label, "
         "the category labels are exactly the strings the error folder matches on, the argument is under cut (so the error surfaces at the argument with its labels), the word is re-read with the grammar's own word parser "
@@ -125,6 +125,44 @@ def run(c, facts, tier):
     # fold semantics: for each category: `Label(s) if *s == CAT => field = Some("")` followed by `Label(s) if expecting_<field>() => field = Some(s)`
     fold_ok = fold_semantics(newfn, facts, cats)
     c.ob("C18.label", newfn.key, "the label following a category label becomes that category's keyword", not fold_ok, "; ".join(fold_ok) or "for test/action/global: category label resets the field to \"\", the next label fills it")
+    # the folder reads the labels from the outside in (category, then keyword): winnow hands them out innermost first
+    # (ContextError::context() iterates in the order the contexts were pushed while the error travelled outward), so the
+    # list must be turned round exactly once on its way into the folder.  Decided by evaluating dispatch() on a context list
+    # of a description, a keyword label, a category label and an outer label, up to the call of the folder.
+    from .. import probe as P
+
+    disp = facts.fn("ParserError::dispatch")
+    inner_first = [("enum", "StrContext::Expected", [("enum", "StrContextValue::Description", ["some_description"])]), ("enum", "StrContext::Label", ["-keyword"]), ("enum", "StrContext::Label", ["category"]), ("enum", "StrContext::Label", ["outermost"])]
+    seen_order = {}
+
+    class _Stop(Exception):
+        pass
+
+    def _capture(args):
+        seen_order["v"] = args[0] if args else None
+        raise _Stop()
+
+    prd = P.Probe(facts, "ParserError", disp.module)
+    prd.intercept[newfn.key] = _capture
+    ctxerr = P.Opq("ctxerr")
+
+    def _context_hook(pr_, e, env):
+        if pr_.ev(e["recv"], env) is ctxerr and not e["args"]:
+            return list(inner_first)
+        return NotImplemented
+
+    prd.mhooks["context"] = _context_hook
+    order_ok, order_det = None, "dispatch() not evaluable up to the folder"
+    try:
+        prd.invoke(disp, None, [ctxerr, P.Opq("input")])
+        order_det = "dispatch() returns without calling %s" % newfn.key
+    except _Stop:
+        got = seen_order.get("v")
+        order_ok = isinstance(got, list) and len(got) == len(inner_first) and all(x is y or x == y for x, y in zip(got, reversed(inner_first)))
+        order_det = "the folder is handed %s" % ([x[2][0] if x[1].endswith("Label") else "<description>" for x in got] if isinstance(got, list) else got) + "; winnow yields the innermost context first, the folder needs the outermost first"
+    except (P.NoEval, P.Panic) as ex:
+        order_det = "dispatch() not evaluable up to the folder: %s" % ex
+    c.ob("C18.label", disp.key, "the folder reads the labels from the outside in", order_ok, order_det, witness="-amin d  → the message names `syntax`, not `-amin`" if order_ok is False else None)
     narg = 0
     for a in alts:
         if a.lit is None:
